@@ -614,3 +614,57 @@ func (s *Stream) Conn() network.Conn                           { return s.c }
 func (s *Stream) Scope() network.StreamScope                   { return &network.NullScope{} }
 func (s *Stream) Peer() *Stream                                { return s.peer }
 func (s *Stream) Name() string                                 { return s.name }
+
+// NotifieeCount is the number of network notifiees registered right now.
+func (h *Host) NotifieeCount() int { h.mu.Lock(); defer h.mu.Unlock(); return len(h.notif) }
+
+// HandlerCount is the number of stream handlers registered right now.
+func (h *Host) HandlerCount() int { h.mu.Lock(); defer h.mu.Unlock(); return len(h.hand) }
+
+// CountingBus wraps an event bus: it counts the subscriptions that are open and can make the
+// FailAt-th Subscribe call (1-based; 0 = never) fail (constructor fault injection).
+type CountingBus struct {
+	event.Bus
+	FailAt int
+	mu     gosync.Mutex
+	calls  int
+	open   int
+}
+
+// ErrSubscribe is the injected Subscribe failure.
+var ErrSubscribe = errors.New("sim: injected Subscribe failure")
+
+func (b *CountingBus) Subscribe(t any, opts ...event.SubscriptionOpt) (event.Subscription, error) {
+	b.mu.Lock()
+	b.calls++
+	fail := b.calls == b.FailAt
+	b.mu.Unlock()
+	if fail {
+		return nil, ErrSubscribe
+	}
+	s, err := b.Bus.Subscribe(t, opts...)
+	if err != nil {
+		return s, err
+	}
+	b.mu.Lock()
+	b.open++
+	b.mu.Unlock()
+	return &countedSub{Subscription: s, b: b}, nil
+}
+
+// Open is the number of subscriptions that were created and not closed.
+func (b *CountingBus) Open() int { b.mu.Lock(); defer b.mu.Unlock(); return b.open }
+
+// Calls is the number of Subscribe calls seen.
+func (b *CountingBus) Calls() int { b.mu.Lock(); defer b.mu.Unlock(); return b.calls }
+
+type countedSub struct {
+	event.Subscription
+	b    *CountingBus
+	once gosync.Once
+}
+
+func (s *countedSub) Close() error {
+	s.once.Do(func() { s.b.mu.Lock(); s.b.open--; s.b.mu.Unlock() })
+	return s.Subscription.Close()
+}
